@@ -891,7 +891,7 @@ package core
 //@   ensures ghost(readinto)[self] == old(ghost(readinto)[self]) + 1
 //@   ensures forall m *core.Metadata :: m != self ==> ghost(readinto)[m] >= old(ghost(readinto)[m])
 
-//@ func core.Fork.updateId property C11 C05
+//@ func core.Fork.updateId property C11 C05 C03
 //@   requires self != nil && self.node != nil && self.node.top != nil
 //@   ensures @reload self.path != old(self.path) ==> ghost(readinto)[self.split_metadata] > old(ghost(readinto))[self.split_metadata]
 //@   ensures @journalname self.fqname == fn(syntax.CallGraphNode.GetFqid, self.node.call) + "." + fn("strings.Replacer.Replace", core.encodeJournalName, self.id)
